@@ -820,6 +820,22 @@ def verify_unit(u, seed=None, canary=True, exclude=(), rlimit=None):
     for _round in range(12):
         text, spans, fnspans = u.assemble(exclude=exclude)
         r = run_verus(text, wd, u.name + '.rs', seed=seed, rlimit=rlimit)
+        # constants the extracted text refers to are part of the verified text: extract them verbatim on demand
+        added_const = False
+        for d in r['diags']:
+            m = re.search(r'cannot find value `([A-Z][A-Z0-9_]*)` in this scope', d['message'])
+            if m and m.group(1) not in u.auto_added:
+                for path in dict.fromkeys(pth for pth, _ in u.extracted):
+                    try:
+                        segs = u.const(path, None, m.group(1))
+                    except LostAnchor:
+                        continue
+                    u.free(segs)
+                    u.auto_added.append(m.group(1))
+                    added_const = True
+                    break
+        if added_const:
+            continue
         if not u.auto_opaque:
             break
         # auto-prelude: every type name rustc cannot find becomes an opaque external type (an ASSUMPTION-free
